@@ -9,8 +9,17 @@
    [oracle_case] : the property itself on the observation, without the merge model: per path the
                    LAST supplier in the loader sequence wins (leaf), maps stay maps, nothing the
                    configured sources supply is missing, no panic; source-adding options add.
-   Order of equal-Order file loaders is left open by the contract: both accept any order of the
-   file block (sort.Slice is not stable). *)
+   Loaders of equal class and Order (two files, two user loaders with the same Order()) must be consulted in
+   the order in which they were added — the reading of "for a key supplied by several loaders the last
+   one wins" for sources the sorter does not separate; sort.Slice on at most 12 elements is a stable
+   insertion sort and the generator stays below that — so exactly ONE sequence is admissible,
+   [sequence] of Model/ConfigMerge.v (c15_sequence_contract + c15_sequence_stable determine it).
+
+   A history case ([hcase]) is ONE Configure driven through several steps (SetLoaders / AddLoaders /
+   Initialize / reads): [check_hcase] replays it on the code's own model ([cstep_run Stored]: the sorted
+   list is stored back), [oracle_hcase] evaluates the property on the observation in the
+   specification's view (every Initialize consults [sequence] of ALL loaders configured so far; per
+   path the last supplier among all documents merged so far wins). *)
 From Coq Require Import List String ZArith Bool Arith.
 From IocVerif Require Import Model.Sorter Model.ConfigMerge.
 Import ListNotations.
@@ -24,7 +33,8 @@ Record case := mkCase {
   cops : list copt;                         (* options passed to Run, in order *)
   cout : oclass;                            (* observed outcome of Run *)
   cgets : list (path * option ctree);       (* observed App.Get(p); None = nil *)
-  cbound : option (key * option ctree)      (* prefix:"k" map field of a component: observed value *)
+  cbound : option (key * option ctree);     (* prefix:"k" map field of a component: observed value *)
+  clog : list nat                           (* ids of the user-written loaders in the order LoadConfig was called *)
 }.
 
 (* ---- comparison of values: maps are compared as maps (key order is not observable) ---------- *)
@@ -72,25 +82,24 @@ Definition oeqv (a b : option ctree) : bool :=
 
 (* ---- admissible loader sequences -------------------------------------------------------- *)
 
-Fixpoint insert_all (x : loader) (l : list loader) : list (list loader) :=
-  match l with
-  | [] => [[x]]
-  | y :: r => (x :: y :: r) :: map (cons y) (insert_all x r)
-  end.
-Fixpoint perms (l : list loader) : list (list loader) :=
-  match l with [] => [[]] | x :: r => flat_map (insert_all x) (perms r) end.
+Definition admissible (ls : list loader) : list (list loader) := [sequence ls].
 
-Definition admissible (ls : list loader) : list (list loader) :=
-  sequence ls ::
-  map (fun fs => fs ++ filter (fun l => negb (is_file l)) ls) (perms (filter is_file ls)).
+Definition list_nat_eqb (a b : list nat) : bool :=
+  if list_eq_dec Nat.eq_dec a b then true else false.
+
+(* the user-written loaders among those a pass calls, in calling order *)
+Definition user_lids (used : list loader) : list nat := map lid (filter is_user used).
+Definition log_of (seq : list loader) : list nat :=
+  let '(_, _, used) := consult seq in user_lids used.
 
 Definition os_loader (c : case) : loader := mkLoader 0 (LArgs (cosargs c)).
 Definition loaders_of (c : case) : list loader := configured Repaired (os_loader c) (cops c).
 
 (* ---- model vs implementation ----------------------------------------------------------------- *)
 
-Definition obs_match (c : case) (o : outcome) : bool :=
-  match o, cout c with
+Definition obs_match (c : case) (seq : list loader) : bool :=
+  list_nat_eqb (log_of seq) (clog c) &&
+  match run_seq [] seq, cout c with
   | RErr, OErr => true
   | RPanic, OPanic => true
   | ROk cfg, OOk =>
@@ -103,7 +112,7 @@ Definition obs_match (c : case) (o : outcome) : bool :=
   end.
 
 Definition check_case (c : case) : bool :=
-  existsb (fun seq => obs_match c (run_seq [] seq)) (admissible (loaders_of c)).
+  existsb (fun seq => obs_match c seq) (admissible (loaders_of c)).
 
 (* ---- the property on the observation ----------------------------------------------------------- *)
 
@@ -136,6 +145,7 @@ Definition bound_ok (c : case) : bool :=
 
 Definition oracle_gen (skip_conflicts : bool) (c : case) : bool :=
   let ls := loaders_of c in
+  list_nat_eqb (log_of (sequence ls)) (clog c) &&
   if existsb unreadable ls then match cout c with OErr => true | _ => false end
   else match cout c with
        | OOk =>
@@ -176,6 +186,101 @@ Definition nontrivial (c : case) : bool :=
 (* generated documents must be well-formed (the theorems' standing hypothesis) *)
 Definition wf_case (c : case) : bool :=
   forallb (fun l => match load l with LoadOk (Some d) => wf_doc d | _ => true end) (loaders_of c).
+
+(* ---- histories: one Configure, several steps ------------------------------------------------------ *)
+
+Inductive hobs : Type :=
+| HSet (ls : list loader)                          (* SetLoaders(ls...) *)
+| HAdd (ls : list loader)                          (* AddLoaders(ls...) / app.AddConfigLoader / app.SetConfig *)
+| HInit (out : oclass) (log : list nat)            (* Initialize (directly or inside App.Run): observed outcome, user loaders called *)
+| HGet (gets : list (path * option ctree)).        (* reads: observed Get(p) *)
+
+Record hcase := mkHCase {
+  hid : nat;
+  hstart : list loader;                     (* what the Configure held before the first step: [] (NewConfigure) or
+                                               [ArgsLoader(os.Args)] (configure.Default) *)
+  hsteps : list hobs;
+  hbound : option (key * option ctree)      (* prefix-bound map field of a component of the final App.Run *)
+}.
+
+Definition st_of (r : rstatus) : oclass := match r with SOk => OOk | SErr => OErr | SPanic => OPanic end.
+Definition oclass_eqb (a b : oclass) : bool :=
+  match a, b with OOk, OOk | OErr, OErr | OPanic, OPanic => true | _, _ => false end.
+
+(* model vs implementation, step by step, on the code's own model *)
+Fixpoint hcheck (s : cstate) (steps : list hobs) (bound : option (key * option ctree)) : bool :=
+  match steps with
+  | [] => match bound with None => true | Some (k, b) => oeqv (getd [k] (cs_cfg s)) b end
+  | HSet ls :: r => hcheck (fst (cstep_run Stored s (CSet ls))) r bound
+  | HAdd ls :: r => hcheck (fst (cstep_run Stored s (CAdd ls))) r bound
+  | HInit out log :: r =>
+      match cstep_run Stored s CInit with
+      | (s', Some (st, used)) =>
+          oclass_eqb (st_of st) out && list_nat_eqb (user_lids used) log && hcheck s' r bound
+      | (_, None) => false
+      end
+  | HGet gets :: r =>
+      forallb (fun pg => oeqv (getd (fst pg) (cs_cfg s)) (snd pg)) gets && hcheck s r bound
+  end.
+
+Definition check_hcase (c : hcase) : bool := hcheck (mkCState (hstart c) []) (hsteps c) (hbound c).
+
+(* the property on the observation: [cur] = the loaders as SetLoaders/AddLoaders built them (Initialize does not
+   touch them), [docs] = every document merged so far, in merge order; a panic is never acceptable, an error only
+   where a loader cannot deliver *)
+Fixpoint horacle (skip : bool) (cur : list loader) (docs : list doc) (lastg : list (path * option ctree))
+                 (steps : list hobs) (bound : option (key * option ctree)) : bool :=
+  match steps with
+  | [] => match bound with
+          | None => true
+          | Some (k, b) => match lookup_obs [k] lastg with Some g => oeqv g b | None => false end
+          end
+  | HSet ls :: r => horacle skip ls docs lastg r bound
+  | HAdd ls :: r => horacle skip (cur ++ ls) docs lastg r bound
+  | HInit out log :: r =>
+      let '(ds, st, used) := consult (sequence cur) in
+      match out with OPanic => false | _ => oclass_eqb (st_of st) out end &&
+      list_nat_eqb (user_lids used) log &&
+      horacle skip cur (docs ++ ds) lastg r bound
+  | HGet gets :: r =>
+      forallb (path_ok skip docs) gets && horacle skip cur docs gets r bound
+  end.
+
+Definition horacle_gen (skip : bool) (c : hcase) : bool :=
+  horacle skip (hstart c) [] [] (hsteps c) (hbound c).
+Definition oracle_hcase (c : hcase) : bool := horacle_gen false c.
+
+Definition hloaders (c : hcase) : list loader :=
+  hstart c ++ flat_map (fun o => match o with HSet ls => ls | HAdd ls => ls | _ => [] end) (hsteps c).
+
+Definition hkf_b_case (c : hcase) : bool := negb (horacle_gen false c) && horacle_gen true c.
+Definition hkf_c_case (c : hcase) : bool :=
+  negb (horacle_gen false c) &&
+  existsb (fun o => match o with HInit OPanic _ => true | _ => false end) (hsteps c) &&
+  existsb args_panics (hloaders c).
+
+(* non-trivial: an Initialize, then the loader list changes, then another Initialize *)
+Fixpoint reinit (phase : nat) (steps : list hobs) : bool :=
+  match steps with
+  | [] => false
+  | HInit _ _ :: r => match phase with 2 => true | _ => reinit 1 r end
+  | HAdd (_ :: _) :: r => reinit (match phase with 0 => 0 | _ => 2 end) r
+  | HSet _ :: r => reinit (match phase with 0 => 0 | _ => 2 end) r
+  | _ :: r => reinit phase r
+  end.
+Definition hnontrivial (c : hcase) : bool := reinit 0 (hsteps c).
+
+Definition wf_hcase (c : hcase) : bool :=
+  forallb (fun l => match load l with LoadOk (Some d) => wf_doc d | _ => true end) (hloaders c).
+
+Definition hmismatches (cs : list hcase) : list nat :=
+  map hid (filter (fun c => negb (check_hcase c && wf_hcase c)) cs).
+Definition hviolations (cs : list hcase) : list nat :=
+  map hid (filter (fun c => negb (oracle_hcase c)) cs).
+Definition hkf_b (cs : list hcase) : list nat := map hid (filter hkf_b_case cs).
+Definition hkf_c (cs : list hcase) : list nat := map hid (filter hkf_c_case cs).
+Definition hcount_nontrivial (cs : list hcase) : list nat :=
+  [length (filter hnontrivial cs)].
 
 Definition mismatches (cs : list case) : list nat :=
   map cid (filter (fun c => negb (check_case c && wf_case c)) cs).
